@@ -27,7 +27,7 @@ def texts():
             s = leaf
             for n in range(1, 61):
                 s = w(s)
-                if k in ('lam', 'formals', 'inherit', 'with') and n > 12: break        # exponential families: finding F-19, bounded here
+                if k in ('lam', 'formals', 'inherit', 'with', 'concat_nl', 'concat_chain_r', 'update_chain_r', 'impl_chain_r', 'lam_nl', 'with_nl') and n > 12: break        # exponential families (multiplicity 2 in Small.CostFam.table): finding F-19, bounded here
                 if n in (1, 2, 5, 12, 30, 60): yield 'nest-%s' % k, s
     for _ in range(N):
         base = G1.doc() if R.random() < 0.5 else G2.doc()
